@@ -138,6 +138,17 @@ pub fn random_seq(rng: &mut Rng, len: usize, alpha: usize) -> Vec<u8> {
 }
 
 /// the 18 aliases + K31 by K (only the Kmer types; dispatch on P/K at run time)
+/// k-mer sizes a user of the crate may define (`KmerSize` is a public trait): odd K beyond 32, on u128 storage
+#[derive(Debug, Hash, Copy, Clone, Ord, PartialOrd, Eq, PartialEq)]
+pub struct K33;
+impl debruijn::kmer::KmerSize for K33 { fn K() -> usize { 33 } }
+#[derive(Debug, Hash, Copy, Clone, Ord, PartialOrd, Eq, PartialEq)]
+pub struct K41;
+impl debruijn::kmer::KmerSize for K41 { fn K() -> usize { 41 } }
+#[derive(Debug, Hash, Copy, Clone, Ord, PartialOrd, Eq, PartialEq)]
+pub struct K63;
+impl debruijn::kmer::KmerSize for K63 { fn K() -> usize { 63 } }
+
 #[macro_export]
 macro_rules! with_kmer_type {
     ($k:expr, $f:ident, $($args:expr),*) => {
@@ -158,12 +169,27 @@ macro_rules! with_kmer_type {
             30 => $f::<debruijn::kmer::Kmer30>($($args),*),
             31 => $f::<debruijn::kmer::VarIntKmer<u64, debruijn::kmer::K31>>($($args),*),
             32 => $f::<debruijn::kmer::Kmer32>($($args),*),
+            33 => $f::<debruijn::kmer::VarIntKmer<u128, $crate::util::K33>>($($args),*),
             40 => $f::<debruijn::kmer::Kmer40>($($args),*),
+            41 => $f::<debruijn::kmer::VarIntKmer<u128, $crate::util::K41>>($($args),*),
             48 => $f::<debruijn::kmer::Kmer48>($($args),*),
+            63 => $f::<debruijn::kmer::VarIntKmer<u128, $crate::util::K63>>($($args),*),
             64 => $f::<debruijn::kmer::Kmer64>($($args),*),
             _ => panic!("unsupported K"),
         }
     };
+}
+
+/// An iterator observed after it was advanced: `count after n/3 steps : last after n/3 steps : exhausted-stays-exhausted`.
+pub fn stateful<T, I: Iterator<Item = T>, F: Fn() -> I, S: Fn(&T) -> String>(mk: F, show: S) -> String {
+    let n = mk().collect::<Vec<T>>().len();
+    let j = n / 3;
+    let adv = |steps: usize| { let mut it = mk(); for _ in 0..steps { it.next(); } it };
+    let rem = adv(j).count();
+    let last_after = adv(j).last().map(|v| show(&v)).unwrap_or("-".into());
+    let e = adv(n).next().is_none() && adv(n).last().is_none() && adv(n).count() == 0 && adv(n).nth(0).is_none()
+        && mk().skip(n).last().is_none() && mk().skip(n + 1).next().is_none();
+    format!("{}:{}:{}", rem, last_after, e as u8)
 }
 
 /// An iterator seen through its adaptors: `count:nth(n-1):skip(n/2):step_by(3):last:nth(n):size_hint-consistent`, where `n` is
@@ -175,6 +201,6 @@ pub fn adaptors<T, I: Iterator<Item = T>, F: Fn() -> I, S: Fn(&T) -> String>(mk:
     let l = |v: Vec<T>| if v.is_empty() { "-".to_string() } else { v.iter().map(|x| show(x)).collect::<Vec<_>>().join(".") };
     let (lo, hi) = mk().size_hint();
     let hint_ok = lo <= n && hi.map(|h| n <= h).unwrap_or(true);
-    format!("{}:{}:{}:{}:{}:{}:{}", mk().count(), o(if n > 0 { mk().nth(n - 1) } else { mk().nth(0) }), l(mk().skip(n / 2).collect()),
-        l(mk().step_by(3).collect()), o(mk().last()), o(mk().nth(n)), hint_ok as u8)
+    format!("{}:{}:{}:{}:{}:{}:{}:{}", mk().count(), o(if n > 0 { mk().nth(n - 1) } else { mk().nth(0) }), l(mk().skip(n / 2).collect()),
+        l(mk().step_by(3).collect()), o(mk().last()), o(mk().nth(n)), hint_ok as u8, stateful(&mk, &show))
 }
